@@ -362,10 +362,10 @@ def crop_disks_from_frame(peaks, frame, crop_size, out_crop_bufs):
 def crop_disks_from_frame_slicing(peaks, frame, crop_size, out_crop_bufs):
 
     def frame_coord_y(peak, y):
-        return y + peak[0] - crop_size
+        return y + int(peak[0]) - crop_size
 
     def frame_coord_x(peak, x):
-        return x + peak[1] - crop_size
+        return x + int(peak[1]) - crop_size
 
     fy, fx = frame.shape
     target_backend = sparseconverter.get_backend(out_crop_bufs)
